@@ -5,10 +5,12 @@ use std::collections::{BTreeMap, BTreeSet, HashSet};
 use std::io::{BufRead, BufReader, Write};
 use std::process::{Command, Stdio};
 
-pub const VERIF_DIR: &str = "/verif";
+pub fn verif_dir() -> String {
+    std::env::var("QSIM_VERIF_DIR").unwrap_or_else(|_| "/verif".to_string())
+}
 
 pub fn replay_dir() -> String {
-    format!("{VERIF_DIR}/replays")
+    format!("{}/replays", verif_dir())
 }
 
 #[derive(Clone, Debug)]
@@ -21,7 +23,7 @@ pub struct Known {
 pub fn load_known() -> (Vec<Known>, Vec<String>) {
     let mut known = Vec::new();
     let mut fixed = Vec::new();
-    let path = format!("{VERIF_DIR}/KNOWN_FINDINGS.txt");
+    let path = format!("{}/KNOWN_FINDINGS.txt", verif_dir());
     if let Ok(s) = std::fs::read_to_string(path) {
         for line in s.lines() {
             let line = line.trim();
@@ -252,8 +254,8 @@ pub fn check_main(prop_id: &str, tier: Tier, seed: u64) -> i32 {
         "wall_s": wall,
         "violations": violations.len(),
     });
-    let _ = std::fs::create_dir_all(format!("{VERIF_DIR}/evidence"));
-    let path = format!("{VERIF_DIR}/evidence/{prop_id}.json");
+    let _ = std::fs::create_dir_all(format!("{}/evidence", verif_dir()));
+    let path = format!("{}/evidence/{prop_id}.json", verif_dir());
     std::fs::write(&path, serde_json::to_string_pretty(&evidence).unwrap()).expect("write evidence");
     println!(
         "{prop_id} {tier_s}: {} runs over {} scenarios, {} distinct non-trivial interleavings, {} inconclusive, {:.1}s; {} violation key(s), {} known finding(s)",
